@@ -121,6 +121,21 @@ def write_real_tree(root, rnd):
     open(os.path.join(root, "loop", "m1.py"), "w").write("from .m2 import *\nfrom .m1 import *\nimport pytest\n\n@pytest.fixture\ndef f1():\n    return 1\n")
     open(os.path.join(root, "loop", "m2.py"), "w").write("from .m1 import *\nimport pytest\n\n@pytest.fixture\ndef f2(f2):\n    return 1\n")
     open(os.path.join(root, "loop", "test_loop.py"), "w").write("def test_l(la, f1, f2):\n    x = lb\n")
+    # import cycles among PLUGIN modules: an entry-point plugin of the venv whose modules star-import
+    # each other (and themselves), and pytest_plugins declarations that name each other
+    sp = os.path.join(root, ".venv", "lib", "python3.11", "site-packages")
+    os.makedirs(os.path.join(sp, "pytest_cyc"), exist_ok=True)
+    os.makedirs(os.path.join(sp, "pytest_cyc-1.0.dist-info"), exist_ok=True)
+    fx = "import pytest\n\n@pytest.fixture\ndef %s():\n    return 1\n"
+    open(os.path.join(sp, "pytest_cyc", "__init__.py"), "w").write("")
+    open(os.path.join(sp, "pytest_cyc", "plugin.py"), "w").write("from .helpers import *\n" + fx % "cyc_a")
+    open(os.path.join(sp, "pytest_cyc", "helpers.py"), "w").write("from .plugin import *\nfrom .helpers import *\n" + fx % "cyc_b")
+    open(os.path.join(sp, "pytest_cyc-1.0.dist-info", "entry_points.txt"), "w").write("[pytest11]\ncyc = pytest_cyc.plugin\n")
+    os.makedirs(os.path.join(root, "plugcyc"), exist_ok=True)
+    open(os.path.join(root, "plugcyc", "conftest.py"), "w").write('pytest_plugins = ["plug_a"]\n')
+    open(os.path.join(root, "plugcyc", "plug_a.py"), "w").write('pytest_plugins = ["plug_b"]\nfrom plug_b import *\n' + fx % "pa")
+    open(os.path.join(root, "plugcyc", "plug_b.py"), "w").write('pytest_plugins = ["plug_a", "plug_b"]\nfrom plug_a import *\nfrom plug_b import *\n' + fx % "pb")
+    open(os.path.join(root, "plugcyc", "test_pc.py"), "w").write("def test_pc(pa, pb, cyc_a, cyc_b):\n    pass\n")
     d = root
     for k in range(40):
         d = os.path.join(d, "d%d" % k)
